@@ -11,10 +11,11 @@
     verde/vector.py greens_func_2d:
 
         distance = sqrt(east**2 + north**2);  distance += mindist
-        ln_r = (3 - poisson) * log(distance);  over_r2 = (1 + poisson) / distance**2
-        green_ee = ln_r + over_r2 * north**2
-        green_nn = ln_r + over_r2 * east**2
-        green_ne = -over_r2 * east * north
+        ln_r = (3 - poisson) * log(distance)
+        east_r = east / distance;  north_r = north / distance       (ratios, bounded by 1)
+        green_ee = ln_r + (1 + poisson) * north_r**2
+        green_nn = ln_r + (1 + poisson) * east_r**2
+        green_ne = -(1 + poisson) * east_r * north_r
 
     [east], [north] are the coordinate DIFFERENCES (data point minus force).
     Floating-point rounding is not modelled: the correspondence check certifies
@@ -47,14 +48,13 @@ Definition spline_entry (e n fe fn md : R) : R := spline_kernel (e - fe) (n - fn
 
 (** ** elastic (coupled) Green's functions *)
 Definition el_ln (d nu : R) : R := (3 - nu) * ln d.
-Definition el_over (d nu : R) : R := (1 + nu) / d ^ 2.
 
 Definition g_ee (dx dy md nu : R) : R :=
-  el_ln (dist dx dy md) nu + el_over (dist dx dy md) nu * dy ^ 2.
+  el_ln (dist dx dy md) nu + (1 + nu) * (dy / dist dx dy md) ^ 2.
 Definition g_nn (dx dy md nu : R) : R :=
-  el_ln (dist dx dy md) nu + el_over (dist dx dy md) nu * dx ^ 2.
+  el_ln (dist dx dy md) nu + (1 + nu) * (dx / dist dx dy md) ^ 2.
 Definition g_ne (dx dy md nu : R) : R :=
-  - el_over (dist dx dy md) nu * dx * dy.
+  - (1 + nu) * (dx / dist dx dy md) * (dy / dist dx dy md).
 
 (** entry (i, j) of the (2 np) x (2 nf) matrix VectorSpline2D.jacobian:
     east rows / east columns first
